@@ -1,8 +1,9 @@
 #!/bin/bash
-# usage: tools/seedeval.sh [seeds]  - every stored seeded change against the quick check of its own property
+# usage: tools/seedeval.sh [seeds] [suffix]  - every stored seeded change (or those of one round: suffix b / c) against
+# the quick check of its own property
 cd "$(dirname "$0")/.."
-seeds=${1:-"0 1"}
-for d in seeded/C*/; do id=$(basename $d); for k in 1 2; do
+seeds=${1:-"0 1"}; suf=${2:-}
+for d in seeded/C*$suf/; do id=$(basename $d); for k in 1 2; do
   [ -f $d/patch$k.diff ] || continue
   tools/seedrun.sh ${id}_$k $(pwd)/$d/patch$k.diff "$seeds" ${id:0:3} 2>&1 | grep "^MUT\|PATCH"
 done; done
